@@ -28,6 +28,7 @@ import (
 	"runtime"
 	"strings"
 	"sync"
+	"sync/atomic"
 	"time"
 	"unsafe"
 
@@ -42,6 +43,7 @@ func init() {
 
 func genC12(c *ctx) {
 	c.emitf("(facts)")
+	c.emitf("(regstorm 8 %d)", c.scale(250, 1500))
 	c.emitf("(sample %d)", c.rng.Int63n(1<<30))
 	n := c.scale(10, 60)
 	procs := []int{1, 2, 4, 8, 16}
@@ -605,6 +607,37 @@ func execC12(op string, args []sx) sx {
 			out = append(out, T(fmt.Sprintf("kind%d", k), A(cleanLong(cr.runOp(int(args[0].int())%maxPriv, concOp{kind: k, arg: args[0].int() + int64(k)})))))
 		}
 		return T("samples", out...)
+	case "regstorm":
+		// many goroutines register builders for distinct types at the same time and use each at once: a registration
+		// that has returned is in force (no update may be lost)
+		g, n := int(args[0].int()), int(args[1].int())
+		fmt.Fprintf(os.Stderr, "C12-CASE (regstorm %d %d)\n", g, n)
+		defer fmt.Fprintf(os.Stderr, "C12-CASE-END\n")
+		var lost atomic.Int64
+		var wg sync.WaitGroup
+		start := make(chan struct{})
+		for i := 0; i < g; i++ {
+			wg.Add(1)
+			go func(i int) {
+				defer wg.Done()
+				<-start
+				for k := 0; k < n; k++ {
+					t := reflect.ArrayOf(1000+i*n+k, reflect.TypeOf(int64(0)))
+					avro.Register(t, func(s avro.Schema, typ reflect.Type, omit bool) (avro.Codec, error) { return privCodec{stamp: 1}, nil })
+					outer := reflect.StructOf([]reflect.StructField{{Name: "V", Type: t, Tag: `json:"v"`}})
+					sch := avro.Schema{Type: "record", Object: &avro.SchemaObject{Name: "o", Fields: []avro.SchemaRecordField{{Name: "v", Type: avro.Schema{Type: "long"}}}}}
+					if _, err := sch.Codec(reflect.New(outer).Interface()); err != nil {
+						lost.Add(1)
+					}
+				}
+			}(i)
+		}
+		close(start)
+		wg.Wait()
+		if l := lost.Load(); l > 0 {
+			return T("mismatch", T("lost-registrations", I(l)), T("of", I(int64(g*n))))
+		}
+		return T("ok", T("registrations", I(int64(g*n))))
 	case "mix":
 		seed, g, n := args[0].int(), int(args[1].int()), int(args[2].int())
 		procs := 0
